@@ -35,6 +35,14 @@ func zzTotalChecks(text string, msgs []*ast.DataMessage, errs, warns []string) {
 			rt.Assert(ok, "diagnostic:format-Ln-Col")
 			rt.Assert(rt.And(line >= 1, line <= 1+nLF), "diagnostic:line-inside-input")
 			rt.Assert(rt.And(col >= 1, col <= 1+len(text)), "diagnostic:column-inside-input")
+			// the column lies inside (or just behind) the line it names: 1 + bytes of that line
+			cur, lineLen := 1, 0
+			for i := 0; i < len(text); i++ {
+				nl := text[i] == '\n'
+				lineLen += rt.Ite(rt.And(!nl, cur == line), 1, 0)
+				cur += rt.Ite(nl, 1, 0)
+			}
+			rt.Assert(col <= 1+lineLen, "diagnostic:column-inside-its-line")
 		}
 	}
 }
@@ -125,5 +133,23 @@ func ZZ_C06_numbers() {
 		text = "S1F1\n<L[" + "9223372036854775807"[:19-k] + d + "] <U1 1> ...[" + "9223372036854775808"[:19-k] + d + "]>\n."
 	}
 	zzParseTotal(text)
+	rt.Reach("end")
+}
+
+// ZZ_C06_deep: d nested lists around one variable (or one value): parsing terminates (the
+// engine's instruction budget, natively a watchdog) and returns the message.
+func ZZ_C06_deep() {
+	d, leaf := rt.Param("d"), rt.Param("leaf")
+	text := "S1F1 W\n"
+	for i := 0; i < d; i++ {
+		text += "<L "
+	}
+	text += []string{"x", "<U1 1>", "x ...", "<A[1..2] s> <B vb>"}[leaf]
+	for i := 0; i < d; i++ {
+		text += ">"
+	}
+	text += "\n."
+	msgs := zzParseTotal(text)
+	rt.Assert(len(msgs) == 1, "deep:parsed")
 	rt.Reach("end")
 }
